@@ -14,7 +14,7 @@ HEADER = """C17 — Concurrent operations on sync nodes terminate and serialise.
    theorems (a finite space swept inside Coq by vm_compute and lifted with forallb_forall, the bound stated in the theorem):
    outside the classes of ConcClass.known_class every schedule of every two-thread single-call scenario on two nodes is
    serialisable; no theorem claims it for unbounded scenarios, and c17_refuted_cycle shows why one must not."""
-REQUIRES = ["From Coq Require Import Permutation.", "From Gdsl.Model Require Import Spec Conc.", "From Gdsl.Model Require Import ConcClass.", "From Gdsl.Proofs Require Import ConcProof ConcCycle ConcClassProof ConcForest."]
+REQUIRES = ["From Coq Require Import Permutation.", "From Gdsl.Model Require Import Spec Conc.", "From Gdsl.Model Require Import ConcClass.", "From Gdsl.Proofs Require Import ConcProof ConcCycle ConcClassProof ConcForest ConcTwoCalls."]
 PINS = [
  ("c17_one_guard_per_thread", "one_guard_per_thread", "in every reachable configuration a thread holds at most one guard, and only for the critical section it is parked at"),
  ("c17_no_deadlock", "no_deadlock", "no reachable configuration is deadlocked: while some thread is unfinished, some thread can move"),
@@ -27,6 +27,7 @@ PINS = [
  ("c17_forest_hypothesis_needed", "forest_hypothesis_needed", "the forest hypothesis cannot be dropped: the four connects of c17_refuted_cycle are single connects, do not prune, and no sequential order reproduces the lists their schedule ends in"),
  ("c17_small_outside_classes_serialisable", "c17_small_outside_classes_serialisable", "BOUNDED (finite space, the bound is in the statement; not the unbounded property): every scenario of the space small_scenarios (2 nodes, every initial edge list of length <= 2, two threads with one call each out of all 28/24 calls) that is outside the known-finding classes: every maximal schedule ends with no panic, no poisoned lock, all threads done, and the outcome (results, final lists) of a serial schedule"),
  ("c17_len3_directed_outside_classes_good", "c17_len3_directed_outside_classes_good", "BOUNDED: the same decision for the directed flavour with initial edge lists of length <= 3 (66640 scenarios)"),
+ ("c17_two_calls_outside_classes_serialisable", "c17_two_calls_outside_classes_serialisable", "BOUNDED, program order: thread 0 makes TWO calls, thread 1 one, all calls, 5 heaps (109760 directed / 69120 undirected scenarios; 31470 / 13600 outside the classes): every maximal schedule ends without panic, all done, with the outcome of a serial MAXIMAL schedule — one that runs each thread's calls in its own order"),
  ("c17_refuted_panic", "c17_refuted_panic", "REFUTATION: isolate || connect panics and poisons a lock"),
  ("c17_refuted_half_edge", "c17_refuted_half_edge", "REFUTATION: connect || disconnect leaves a half-edge at quiescence and disconnect reports EdgeNotFound"),
  ("c17_refuted_order", "c17_refuted_order", "REFUTATION: two connects of one pair: outgoing and incoming order differ"),
